@@ -134,6 +134,73 @@ def multi_const_srcs():
     return out
 
 
+# ---- bodies that call Guppy functions BORROWING containers in non-leading positions; the callee mutates,
+# the body uses the container afterwards.  Compared: the dataflow terms feeding the function outputs
+# (return value and the borrowed containers handed back), i.e. which call output reaches the later use.
+BR_PRELUDE = """
+@guppy
+def bump(k: int, xs: array[int, 2]) -> None:
+    xs[0] = xs[0] + k
+
+@guppy
+def bump_first(xs: array[int, 2], k: int) -> None:
+    xs[0] = xs[0] + k
+
+@guppy
+def bump3(a: float, k: int, xs: array[int, 2]) -> None:
+    xs[1] = xs[1] * k
+
+@guppy
+def two(xs: array[int, 2], ys: array[int, 2]) -> None:
+    xs[0] = ys[1]
+    ys[0] = 7
+
+@guppy
+def two_mid(k: int, xs: array[int, 2], j: int, ys: array[int, 2]) -> int:
+    xs[0] = ys[1] + k
+    ys[1] = j
+    return xs[1]
+
+@guppy
+def total(xs: array[int, 2]) -> int:
+    return xs[0] + xs[1]
+
+@guppy
+def nested(k: int, m: array[array[int, 2], 2]) -> None:
+    m[0][1] = k
+"""
+BR_SIG = "(xs: array[int, 2], ys: array[int, 2], k: int, x: float, m: array[array[int, 2], 2]) -> int:\n"
+BR_BODIES = {
+    "second_then_total": ["bump(k, xs)", "return total(xs)"],
+    "second_then_back": ["bump(k, xs)", "return k"],
+    "first_control": ["bump_first(xs, k)", "return total(xs)"],
+    "third": ["bump3(x, k, xs)", "return total(xs)"],
+    "third_other": ["bump3(x, k, ys)", "return total(xs) + total(ys)"],
+    "two_same_type": ["two(xs, ys)", "return total(ys)"],
+    "two_swapped": ["two(ys, xs)", "return total(xs)"],
+    "two_mid": ["r = two_mid(k, xs, 3, ys)", "return r + total(ys)"],
+    "two_mid_swapped": ["r = two_mid(k, ys, 3, xs)", "return r + total(xs)"],
+    "pass_on": ["bump(k, xs)", "bump(2, xs)", "return total(xs)"],
+    "pass_on_mixed": ["bump(k, xs)", "two(ys, xs)", "bump3(x, 2, ys)", "return total(ys) + total(xs)"],
+    "both_second": ["bump(k, xs)", "bump(k + 1, ys)", "return total(ys)"],
+    "result_feeds_next": ["r = two_mid(k, xs, 3, ys)", "bump(r, ys)", "return total(ys)"],
+    "nested_second": ["nested(k, m)", "return k"],
+}
+
+
+def borrow_srcs():
+    out = []
+    for name, lines in BR_BODIES.items():
+        body = "".join("    " + l + "\n" for l in lines)
+        out.append({"id": f"br_{name}", "body": body, "comptime_src": f"@guppy.comptime\ndef c_br_{name}{BR_SIG}{body}",
+                    "regular_src": f"@guppy\ndef r_br_{name}{BR_SIG}{body}"})
+    return out
+
+
+def canon_outputs(outs):
+    return [show_term(norm_term(parse_term(t)[0])) for t in outs if not t.startswith("CFG(")]
+
+
 COQ_HEAD = """From Coq Require Import List Bool String.
 From V.C21 Require Import ModelBase GenTracing GenAccepts ModelDispatch.
 Import ListNotations. Open Scope string_scope.
@@ -200,6 +267,12 @@ def norm_term(n):
     if n[0] == "const":
         return n
     name, args = n[0], [norm_term(a) for a in n[1]]
+    if name.endswith("borrow_arr.new_array") and args and all(a[0] != "const" for a in args):
+        # comptime code turns an array into a Python list and back: new_array(unpack(X), unpack(X).1, ..) is X
+        base = args[0][0]
+        if base.endswith("borrow_arr.unpack") and all(
+                a[0] == (base if i == 0 else f"{base}.{i}") and len(a[1]) == 1 and a[1] == args[0][1] for i, a in enumerate(args)):
+            return args[0][1][0]
     if name in MIRROR and len(args) == 2:
         name, args = MIRROR[name], args[::-1]
     if name in SYMM and len(args) == 2:
@@ -328,6 +401,26 @@ def run(ctx):
             extra_fail.append(i)
             ctx.report(f"differs:{i}", "counterexample", "unary operator / builtin differs between comptime and regular",
                        {"expression": e, "argument_type": t, "comptime": ct, "regular": rg})
+    br_cases = borrow_srcs()
+    br = json.loads(ctx.impl("impl_tracing.py", {"mode": "compare", "prelude": BR_PRELUDE,
+                                                  "cases": [{k: c[k] for k in ("id", "comptime_src", "regular_src")} for c in br_cases]}))
+    br_fail, br_both_ok = [], 0
+    for c in br_cases:
+        ct, rg = br[c["id"]]["comptime"], br[c["id"]]["regular"]
+        for side in (ct, rg):
+            if side["ok"]:
+                side["canonical_outputs"] = canon_outputs(side["outputs"])
+                side.pop("terms", None)
+        same = (ct["ok"] and rg["ok"] and ct["canonical_outputs"] == rg["canonical_outputs"]) or (not ct["ok"] and not rg["ok"])
+        br_both_ok += bool(ct["ok"] and rg["ok"])
+        if not same or not (ct["ok"] and rg["ok"]):   # these bodies are valid in both modes: a rejection is a disagreement with the corpus
+            br_fail.append(c["id"])
+            if len(br_fail) <= 4:
+                ctx.report(f"differs:{c['id']}", "counterexample",
+                           "after a call that borrows a container, the comptime body and the regular body use different values",
+                           {"body": c["body"], "signature": BR_SIG.strip(), "callees": "props/C21/check.py:BR_PRELUDE",
+                            "meaning": "outputs = [return value, xs, ys, m handed back]; each is the dataflow term feeding it (new_array(unpack(X)..) normalised to X)",
+                            "comptime": ct, "regular": rg, "programs": {k: c[k] for k in ("comptime_src", "regular_src")}})
     mc_fail, mc_both_ok = [], 0
     for c in mc_cases:
         ct, rg = mc[c["id"]]["comptime"], mc[c["id"]]["regular"]
@@ -363,11 +456,12 @@ def run(ctx):
          "ModelDispatch.v: Python's binary-operator dispatch (left method first unless the left operand is a Python constant, then the reflected method of the right operand) and py_ops, written from the language reference",
          "props/C21/hterm.py canonicalisation of HUGR functions into operation terms; tools/repo_shim.py",
          "not modelled (partial): tuple/array/struct unpacking and calls to Guppy functions from comptime code, results on the emulator (no emulator can run /repo HUGR) — agreement is established at the level of the compiled operations"],
-        evaluations=len(run_cases) * 2 + len(EXTRA) * 2 + len(mc_cases) * 2 + len(cases), distinct_nontrivial=both_ok,
+        evaluations=len(run_cases) * 2 + len(EXTRA) * 2 + len(mc_cases) * 2 + len(br_cases) * 2 + len(cases), distinct_nontrivial=both_ok,
         rule="cases = operator(19) x operand kinds {traced/traced, traced/const, const/traced} x operand types over {int,nat,float,bool} / constants {2, 2.5, True}; quick = corpus + 2 per operator x kind pair, thorough = all 760; non-trivial = both versions compiled (the operator is defined for the operand types)",
-        exhaustive=not ctx.quick, programs=len(run_cases) * 2 + len(EXTRA) * 2 + len(mc_cases) * 2,
+        exhaustive=not ctx.quick, programs=len(run_cases) * 2 + len(EXTRA) * 2 + len(mc_cases) * 2 + len(br_cases) * 2,
         traces_validated_against_impl=len(run_cases) if model else 0, model_impl_mismatches=len(model_fail),
         property_disagreements=len(prop_fail), both_compiled=both_ok, both_rejected=both_err, extra_cases=len(EXTRA), extra_disagreements=extra_fail,
+        borrow_bodies=len(br_cases), borrow_both_compiled=br_both_ok, borrow_disagreements=br_fail,
         multi_constant_bodies=len(mc_cases), multi_constant_both_compiled=mc_both_ok, multi_constant_disagreements=mc_fail,
         model_flagged=[cid(c) for c in model_disagree], kind_pairs=dist, translator={k: str(v) for k, v in tinfo.items()},
         samples=[{"expression": expr(c), "types": [c["a"], c["b"]], "comptime": impl[cid(c)]["comptime"], "regular": impl[cid(c)]["regular"],
